@@ -115,7 +115,8 @@ def run(prop, title, obligations, ctx, explanation, assumptions, level="other", 
             res.fail("anchor", "?", "anchor not found / idiom not recognised: %s" % e)
         except Exception as e:  # fail closed, but diagnosable
             res.fail("checker-error", "?", "rule raised %s: %s\n%s" % (type(e).__name__, e, traceback.format_exc()[-1500:]))
-        if not res.violations and len(res.instances) + len(res.undecideds) < ob.floor:
+        # the floor guards against a rule that silently matched nothing; a rule that reported what it could not follow (undecided) has said so itself
+        if not res.violations and not res.undecideds and len(res.instances) < ob.floor:
             res.fail("floor", "?", "only %d instance(s) matched, floor is %d (rule would pass vacuously)" % (
                 len(res.instances), ob.floor))
         status = "discharged" if not res.violations else "violated"
